@@ -216,7 +216,7 @@ func (vc *VC) applyContract(st *State, call *ast.CallExpr, c *Contract, callee *
 		pi = vc.pkg // dependency outside the module: resolve names in the caller's package
 	}
 	names := vc.contractNames(c, callee, sig, recv, args, nil)
-	pre := &SpecScope{cur: st, old: nil, names: names, pkg: pi, where: "call " + key}
+	pre := &SpecScope{cur: st, old: nil, names: names, pkg: pi, predPkg: c.Pkg, where: "call " + key}
 	for _, r := range c.Requires {
 		t := vc.evalSpecBoolIn(pre, r.Expr)
 		vc.oblige(st, "pre", shortKey(c)+"."+r.Label, "requires "+r.Text+" [call at "+vc.w.pos(call.Pos())+"]", call.Pos(), t)
@@ -239,7 +239,7 @@ func (vc *VC) applyContract(st *State, call *ast.CallExpr, c *Contract, callee *
 	}
 	results := vc.havocResults(st, callee.Name(), sig)
 	names = vc.contractNames(c, callee, sig, recv, args, results)
-	post := &SpecScope{cur: st, old: oldSt, names: names, pkg: pi, where: "call " + key}
+	post := &SpecScope{cur: st, old: oldSt, names: names, pkg: pi, predPkg: c.Pkg, where: "call " + key}
 	guard := smtAnd(vc.guards...)
 	for _, e := range c.Ensures {
 		t := vc.evalSpecBoolIn(post, e.Expr)
